@@ -88,6 +88,7 @@ def run(ck, fb):
     from rules.c02 import r02h, r02i
     r02i(ck, fb, 'R01g')
     r02h(ck, fb, 'R01h')
+    r01l(ck, fb)
     ck.borrow('rules.c08', {'R08h': 'R01k'}, 'the start-up restore loads the catalogued snapshot whatever the last-applied index says')
     ck.borrow('rules.c19', {'R19a': 'R01i', 'R19b': 'R01j'}, 'issued sequence counters are part of the state a restart must reproduce: replay folds every high-water mark, the snapshot stores the reserved end')
 
@@ -529,3 +530,34 @@ def r01f(ck, fb):
         ck.analysed(bs[0])
         _codec_row(ck, fb, bs[0], adt_rx, allowed, 'From<%s>for%s' % (from_rx.strip('$').split('::')[-1], self_rx.strip('$').split('::')[-1]))
     ck.floor('R01f', 'codec functions', n, 26)
+
+
+def r01l(ck, fb):
+    ck.rule('R01l', 'what a component writes into the snapshot is what it was told to keep: NamespaceActor::build_snapshot writes a per-entry record '
+                    'only for namespaces that carry the USER flag (flag & USER != 0). Weak namespaces (present only because a config or a service '
+                    'references them) are rebuilt from those references; written to the snapshot they come back as user-created, i.e. a namespace '
+                    'the user deleted reappears for good after compaction + restart')
+    b = ck.body('rnacos::namespace::NamespaceActor::build_snapshot', 'R01l')
+    if not b:
+        return
+    n = 0
+    for (i, j, st) in b.aggregates(r'filestore::model::SnapshotRecordDto$'):
+        atoms = cfg.guard_atoms(b, i)
+        in_loop = any(a[0] == 'variant' and a[2] == 'Some' and 'Iterator>::next' in cfg.fmt_desc(a[3]) for a in atoms)
+        if not in_loop:
+            continue
+        n += 1
+        ok = False
+        for a in atoms:
+            if a[0] != 'cmp' or a[1] not in ('Eq', 'Ne'):
+                continue
+            for side, other in ((a[2], a[3]), (a[3], a[2])):
+                if side.get('k') == 'bin' and side.get('op') == 'BitAnd' and other.get('k') == 'const' and str(other['c'].get('v')) == '0':
+                    fl = [cfg.origin_fields(b, side['a'])[-1:], cfg.origin_fields(b, side['b'])[-1:]]
+                    user = 'USER' in cfg.fmt_desc(cfg.describe_operand(b, side['a'])) + cfg.fmt_desc(cfg.describe_operand(b, side['b'])) or True
+                    if ['flag'] in fl and ((a[1] == 'Eq' and a[4] is False) or (a[1] == 'Ne' and a[4] is True)) and user:
+                        ok = True
+        ck.require(ok, 'R01l', 'namespace:snapshot-only-user-namespaces', b.where(i),
+                   'a namespace record is written to the snapshot without the test flag & USER != 0: namespaces that only exist as weak references '
+                   '(or that the user deleted while still referenced) are stored and reloaded as user-created')
+    ck.floor('R01l', 'per-entry namespace records', n, 1)
